@@ -101,6 +101,7 @@ func (r *Run) Case(family string, idx int) *Case {
 	if r.Replay != nil && (r.Replay.Family != family || r.Replay.Index != idx) {
 		return nil
 	}
+	noteCase(family, idx)
 	return &Case{R: r, Family: family, Index: idx, Rand: rand.New(rand.NewSource(caseSeed(r.Seed, family, idx)))}
 }
 
